@@ -42,11 +42,13 @@ func sh(items ...any) *hShape {
 	return s
 }
 
-// shapes: value links and sub-shards mixed, several sub-shards per shard, 3 levels.
+// shapes: value links and sub-shards mixed, several sub-shards per shard, 3 and 4 levels.
 var hShapes = []*hShape{
 	sh(0, "a", 1, sh(0, "b", 7, "c"), 7, "d"),
 	sh(1, sh(0, "a", 1, sh(2, "b", 5, "c")), 6, sh(3, "d", 4, "e"), 7, "f"),
 	sh(0, sh(0, sh(0, "a", 1, "b"), 7, "c"), 3, "d", 5, sh(1, "e", 2, "f")),
+	// four levels: root -> C -> G -> M, with G the last link of C and M not the last link of G
+	sh(1, sh(2, "p", 4, sh(0, sh(3, "a", 4, "b"), 6, "c")), 7, "d"),
 	sh(2, "a"),
 }
 
@@ -66,6 +68,7 @@ func mirrorShape(s *hShape, fanout int) *hShape {
 }
 
 type builtHamt struct {
+	arbitraryNames bool // native replay only, see build
 	shape   *hShape
 	st      *verifmodel.Store
 	ls      *ipld.LinkSystem
@@ -118,7 +121,15 @@ func (bh *builtHamt) build(s *hShape, prefix []int, pathKeys []string, idx *int)
 			e := &hEntry{link: fakeLink(*idx), tsize: uint64(*idx + 1)}
 			e.hash = hashWithPrefix(append(append([]int{}, prefix...), b), bh.lg)
 			if verifrt.Native() {
-				e.name = verifmodel.FindName(*idx, e.hash, (len(prefix)+1)*bh.lg)
+				if bits := (len(prefix) + 1) * bh.lg; bits <= 24 {
+					e.name = verifmodel.FindName(*idx, e.hash, bits)
+				} else {
+					// no real name with that many given hash bits can be searched for: an
+					// arbitrary name serves every operation that does not hash names
+					// (iteration, Length, preload); by-name operations are not replayed
+					e.name = fmt.Sprintf("n%d_any", *idx)
+					bh.arbitraryNames = true
+				}
 			} else {
 				e.name = tag + "n"
 				if tag == "a" {
@@ -226,6 +237,14 @@ func buildHamtShape(which int, lg int) *builtHamt {
 	return bh
 }
 
+// byName is called before any by-name operation: those cannot be replayed natively when
+// the tree's real names could not be searched for.
+func (bh *builtHamt) byName() {
+	if verifrt.Native() && bh.arbitraryNames {
+		verifrt.Stop()
+	}
+}
+
 func (bh *builtHamt) open(preload bool) (datamodel.Node, error) {
 	root, err := bh.ls.Load(ipld.LinkContext{}, bh.root, dagpb.Type.PBNode)
 	verifrt.Assert(err == nil, "root-loads")
@@ -271,6 +290,7 @@ func VerifHamtReaderWellFormed() {
 		verifrt.Assert(n == len(bh.entries), "iter:count")
 	}
 	lookupAll := func() {
+		bh.byName()
 		for _, e := range bh.entries {
 			v, err := node.LookupByString(e.name)
 			verifrt.Assert(err == nil && v != nil, "lookup:member-found")
@@ -286,6 +306,7 @@ func VerifHamtReaderWellFormed() {
 		if !verifrt.Native() {
 			bh.tab.Set("", make([]byte, 8))
 		}
+		bh.byName()
 		_, err := node.LookupByString("")
 		_, isNoField := err.(schema.ErrNoSuchField)
 		verifrt.Assert(isNoField, "lookup:non-member-not-found")
@@ -303,6 +324,7 @@ func VerifHamtReaderWellFormed() {
 		verifrt.Reach("enumerate-then-lookup")
 	case 4: // one node used for a by-name lookup first (any member), then enumerated
 		e := bh.entries[verifrt.Choose(len(bh.entries))]
+		bh.byName()
 		v, err := node.LookupByString(e.name)
 		verifrt.Assert(err == nil && v != nil, "lookup:member-found")
 		iterateAll()
@@ -312,6 +334,7 @@ func VerifHamtReaderWellFormed() {
 	case 0: // member lookups, cold cache each (fresh node per lookup is not needed: check load sets cumulatively)
 		ei := verifrt.Choose(len(bh.entries))
 		e := bh.entries[ei]
+		bh.byName()
 		v, err := node.LookupByString(e.name)
 		verifrt.Assert(err == nil && v != nil, "lookup:member-found")
 		got, _ := v.AsLink()
@@ -335,7 +358,11 @@ func VerifHamtReaderWellFormed() {
 		probe := verifrt.Bytes(8)
 		name := "zz"
 		if verifrt.Native() {
-			name = verifmodel.FindName(77, probe, 3*bh.lg)
+			bh.byName()
+			if 4*bh.lg > 24 {
+				verifrt.Stop()
+			}
+			name = verifmodel.FindName(77, probe, 4*bh.lg)
 		} else {
 			bh.tab.Set(name, probe)
 		}
